@@ -498,6 +498,9 @@ pub fn main(tier: Option<&str>) {
     run.extra("recoveries", serde_json::json!(sh.recoveries.load(std::sync::atomic::Ordering::Relaxed)));
     run.extra("transitions_crashed", serde_json::json!(st.transitions));
     restart_through_builder(run);
+    // a restart on a record directory that holds a file the node did not write (or wrote under another name)
+    let (planted, _) = crate::c17s::sweep(run, "");
+    run.extra("planted_file_restarts", serde_json::json!(planted));
     let t0 = std::time::Instant::now();
     large_record_sweep(run);
     run.extra("large_record_torn_points", serde_json::json!(run.get_count("large_record_torn_points")));
